@@ -3,7 +3,9 @@
 //! RFC 8259 and the property statements.
 pub mod gen;
 pub mod jgen;
+pub mod jparse;
 pub mod jpath;
+pub mod jrender;
 pub mod layout;
 pub mod ops;
 pub mod text;
